@@ -1320,20 +1320,16 @@ def compare_addr_tables(af, mf):
     T = af["internal_address_type"]
     lo, hi = TYPE_RANGE[T]
     fits = lambda v: lo <= v <= hi
-    blocks = {}
-    for b in af["blocks"]:
-        blocks.setdefault(b["name"], b)
-    for tb in mf["addr_tables"]:
-        b = blocks.get(tb["block"])
-        if b is None:
-            return f"block {tb['block']} missing in the implementation's output"
-        ms = {}
-        for m in b["methods"]:
-            ms.setdefault(m["name"], m)
-        for tm in tb["methods"]:
-            m = ms.get(tm["name"])
-            if m is None:
-                return f"method {tm['name']} missing"
+    if len(mf["addr_tables"]) != len(af["blocks"]):
+        return f"{len(af['blocks'])} blocks emitted, the model has {len(mf['addr_tables'])}"
+    for tb, b in zip(mf["addr_tables"], af["blocks"]):
+        if b["name"] != tb["block"]:
+            return f"block {tb['block']} missing in the implementation's output (found {b['name']})"
+        if len(tb["methods"]) != len(b["methods"]):
+            return f"block {tb['block']}: {len(b['methods'])} methods emitted, the model has {len(tb['methods'])}"
+        for tm, m in zip(tb["methods"], b["methods"]):
+            if m["name"] != tm["name"]:
+                return f"method {tm['name']} missing (found {m['name']})"
             lit = int(m["address"])
             rep = m["repeat"]
             for row in tm["rows"]:
